@@ -120,3 +120,26 @@ def run(ctx):
             if c.endswith('_DEPRECATED'):
                 continue
             ctx.ob('C08-D3', ty, 'carrier const ' + c, 'referenced in the call closure of get_object_locations_from_stream', c in items)
+    # ---- D4 SVG: the store is embedded as padded base64 text; the length of the reported manifest region must be the length of that text:
+    # taken from the encoder itself, or an arithmetic form that equals 4*ceil(n/3) for every store length n (checked for n = 0..300)
+    import finite
+    sn = '<asset_handlers::svg_io::SvgIO as asset_io::CAIWriter>::get_object_locations_from_stream'
+    if ctx.require(prog.has(sn), sn):
+        fn = prog.fn(sn)
+        cai = None
+        for b in fn.B:
+            for dst, rv in b['s']:
+                if rv['k'] == 'agg' and str(rv.get('adt', '')).endswith('HashObjectPositions') and len(rv['ops']) >= 3 and T.op_term(fn, rv['ops'][2]).startswith('Cai'):
+                    cai = T.op_term(fn, rv['ops'][1])
+        if ctx.ob('C08-D4', sn, 'Cai position', 'constructed', cai is not None, nontrivial=False):
+            if re.match(r'^(String::|str::)?len\((base64::)?encode\(', cai):
+                ok, how = True, 'length of encode(store) (the writer\'s encoder)'
+            else:
+                vals = [(n, finite.eval_arith(cai, n)) for n in range(0, 301)]
+                if any(v is None for n, v in vals):
+                    ok, how = False, 'length expression of unknown shape: %s' % cai[:100]
+                else:
+                    bad = [(n, v) for n, v in vals if v != 4 * (-(-n // 3))]
+                    ok, how = not bad, ('equals 4*ceil(n/3) for n = 0..300' if not bad else 'differs from the padded base64 length at n=%d: %d vs %d' % (bad[0][0], bad[0][1], 4 * (-(-bad[0][0] // 3))))
+            ctx.ob('C08-D4', sn, 'length of the reported manifest region', 'the length of the embedded base64 text', ok, detail=how)
+
